@@ -412,6 +412,78 @@ func c01HandlerSeq(r *h.Result, rng *h.Rng, n int) error {
 	return r.Compare("handler-seq", ops, impl, cases)
 }
 
+// c01HandlerChunks: one push whose body the parser splits into several chunks (it crosses the 1 MiB chunk
+// threshold), with the INSERTs of the samples table failing first and succeeding later (or the other way
+// round). Oracle only: a 2xx answer means EVERY line of the body is in an INSERT that returned nil.
+func c01HandlerChunks(r *h.Result, rng *h.Rng, n int) {
+	r.Stream("handler-chunks: real PushStreamV2 with a body of ~70 000 lines (several parser chunks), scripted per-INSERT outcomes of samples_v3 (fail-then-succeed, succeed-then-fail, random); oracle: 2xx ⇒ every line in an accepted block")
+	for i := 0; i < n; i++ {
+		attempts := 1 + rng.Intn(2)
+		var script []bool
+		switch rng.Intn(3) {
+		case 0:
+			script = []bool{false, true, true, true, true, true, true, true}
+		case 1:
+			script = []bool{true, false, false, false, false, false, false, false}
+		default:
+			for j := 0; j < 8; j++ {
+				script = append(script, rng.Chance(50))
+			}
+		}
+		lines := 70000 + rng.Intn(5000)
+		toks := make([]uint64, lines)
+		base := uint64(2000000000) + uint64(i)*1000000
+		for j := range toks {
+			toks[j] = base + uint64(j)
+		}
+		rig := newHandlerRig(rng.Fork(), attempts, time.Millisecond, 0, 1, 0, 0, 0, map[string][]bool{"samples": script})
+		body := lokiBody(uint64(3000000+i), toks)
+		done := make(chan int, 1)
+		go func() { done <- rig.push(body) }()
+		code := -1
+		select {
+		case code = <-done:
+		case <-time.After(60 * time.Second):
+		}
+		rig.stop()
+		splEnv := rig.envs["samples"]
+		splEnv.mu.Lock()
+		have := map[uint64]bool{}
+		for _, lb := range splEnv.okBlocks {
+			for _, v := range lb.blk.Data["string"] {
+				have[v] = true
+			}
+		}
+		nDo := splEnv.nDo
+		splEnv.mu.Unlock()
+		missing := 0
+		for _, t := range toks {
+			if !have[t] {
+				missing++
+			}
+		}
+		sc := ""
+		for _, b := range script {
+			sc += b01(b)
+		}
+		r.Case(fmt.Sprintf("handler-chunks:%d:%s:%d", attempts, sc, lines), nDo >= 2)
+		r.Count(fmt.Sprintf("handler-chunks:do-calls=%d", nDo))
+		r.Count(fmt.Sprintf("handler-chunks:status=%d", code))
+		if code >= 200 && code < 300 && missing > 0 {
+			r.Violate("C01/2xx-without-successful-insert/multi-chunk",
+				fmt.Sprintf("one push of %d lines (several parser chunks), attempts=%d, samples INSERT outcomes %s (1 = nil): answered %d but %d lines are in no accepted block", lines, attempts, sc, code, missing),
+				map[string]any{"stream": "handler-chunks", "attempts": attempts, "samples_do_outcomes": sc, "lines": lines, "code": code, "missing": missing})
+		}
+		if code < 0 {
+			r.Violate("C01/no-answer/multi-chunk", fmt.Sprintf("push of %d lines, attempts=%d, outcomes %s got no answer within 60 s", lines, attempts, sc),
+				map[string]any{"stream": "handler-chunks", "attempts": attempts, "samples_do_outcomes": sc, "lines": lines})
+		}
+		if i == 0 {
+			r.Sample(map[string]any{"stream": "handler-chunks", "lines": lines, "attempts": attempts, "samples_do_outcomes": sc, "status": code, "do_calls": nDo})
+		}
+	}
+}
+
 // what the observed Do calls say about the push: it succeeded iff the last Do it caused returned nil
 func pushResultFromDo(outs []bool, nDo int) string {
 	if nDo > 0 && nDo <= len(outs) && outs[nDo-1] {
@@ -621,6 +693,11 @@ func c01(r *h.Result, rng *h.Rng, tier string, replay string) error {
 	}
 	if err := c01HandlerSeq(r, rng.Fork(), nSeq); err != nil {
 		return err
+	}
+	if tier == "quick" {
+		c01HandlerChunks(r, rng.Fork(), 4)
+	} else {
+		c01HandlerChunks(r, rng.Fork(), 30)
 	}
 	r.Stream("handler-soak: concurrent pushes through the real PushStreamV2 handler, real Run loops and timers, random Do (25 % errors) and connect outcomes; oracle only")
 	if tier == "quick" {
